@@ -645,7 +645,11 @@ func newJSONFromFastJSON(v *fastjson.Value, path JSONPath) JSON {
 		}
 		return newJSONArray(arr, path)
 	case fastjson.TypeNumber:
-		return newJSONNumber(v.GetFloat64(), path)
+		f64, err := fastjsonFloat64(v)
+		if err != nil {
+			f64 = v.GetFloat64()
+		}
+		return newJSONNumber(f64, path)
 	case fastjson.TypeString:
 		return newJSONString(string(v.GetStringBytes()), path)
 	case fastjson.TypeTrue:
